@@ -136,10 +136,19 @@ CHECKS = {
 }
 
 EXTRA = {
-    "C01": " Candidates refused once are offered again later (verdicts must not depend on history).",
-    "C02": " Candidates refused once are offered again later.",
-    "C05": " Candidates refused once are offered again later.",
-    "C08": " A thread lane hands blocks to the store while another thread flushes, with a delay injected after the sqlite write.",
+    "C01": " Candidates refused once are offered again later (verdicts must not depend on history). A node lane delivers candidates "
+           "over the wire to a real node, reloads its store by a restart and checks that nothing refused is part of the rebuilt state.",
+    "C02": " Candidates refused once are offered again later. A node lane delivers candidates over the wire with an emulated miner "
+           "acting inside the validation window.",
+    "C05": " Candidates refused once are offered again later. The miner front end is driven across retarget-period boundaries with "
+           "a ticking clock and every candidate it hands out is judged by the reference and the node's own validation.",
+    "C08": " A thread lane hands blocks to the store while another thread flushes, with a delay injected after the sqlite write. "
+           "A large-store lane writes and reloads thousands of blocks on several equal-height branches.",
+    "C06": " A genuine block is decoded before each truncated one (the decode result must not depend on earlier decodes).",
+    "C10": " A fifth of the runs place all nodes on one host. Plus EVERY choice sequence of length 4 / 6 over the enabled actions "
+           "(accept, read, write, timer step) of three two-node scenarios, executed from scratch and then drained.",
+    "C20": " A non-interference lane runs the same honest script twice -- a second peer silent vs. announcing the same blocks and "
+           "then failing -- and compares the traffic to each honest peer, the final state and the downloaded blocks.",
     "C09": " Rejected blocks are delivered again later; plus EVERY sequence of 3 (quick) / 5 (thorough) deliveries from an 8-event "
            "alphabet on a small chain.",
     "C11": " A socket lane drives the full path below the selector with harness-chosen read sizes; an auxiliary lane runs the "
